@@ -17,6 +17,8 @@ PRIMS = ('transfer', '_transfer', '_transfer_slice')
 def run(ctx):
     from .configtime import derived_values as _derived
     _derived(ctx, 'C01.R3', ('Slicer', 'PlateSlicer', 'Plate'))
+    from .configtime import decisions_not_taken_on_display_values as _coarse
+    _coarse(ctx, 'C01.R3', ('Container', 'Plate', 'PlateSlicer', 'Recipe', 'RecipeStep'))
     symmetric_update(ctx)
     # the per-substance update finds the destination's entry through the key laws of Substance
     from .identity import identity_discipline
@@ -567,13 +569,24 @@ def shared_plate_copy(ctx, rule, identity_only=False):
         # the copy of one plate replaces both: only valid if both slices refer to the very same plate object
         keys = {pathkey(t) for t in st.targets}
         same_obj = False
+        # `==` between two plates is the identity of the objects only as long as Plate defines no equality of its own
+        plate_cls = model.classes.get('Plate')
+        own_eq = [m.name for m in plate_cls.node.body if isinstance(m, (ast.FunctionDef, ast.Assign)) and
+                  (getattr(m, 'name', None) in ('__eq__', '__ne__') or
+                   any(isinstance(t, ast.Name) and t.id in ('__eq__', '__ne__') for t in getattr(m, 'targets', [])))] \
+            if plate_cls is not None else []
+        by_value = False
         for cmp_ in facts_at(fft.state_before(st)):
             if cmp_.op in ('eq', 'is') and cmp_.right is not None and \
                     {getattr(cmp_.left, 'pkey', None), getattr(cmp_.right, 'pkey', None)} == keys:
+                if cmp_.op == 'eq' and own_eq:
+                    by_value = True
+                    continue
                 same_obj = True
         ctx.ob(rule, fi, st.lineno, f"{sorted(keys)} are replaced by one copy only when they are the same plate object",
                same_obj, fact=('guarded by equality / identity of the two plate objects' if same_obj else
-                               'the branch is not guarded by a comparison of the two plate objects themselves'),
+                               (f"the guard compares with `==` and Plate defines {own_eq[0]}: equal plates are not the same plate"
+                                if by_value else 'the branch is not guarded by a comparison of the two plate objects themselves')),
                why='two different plates (e.g. with equal names) are treated as one: the source wells are read from a '
                    'copy of the destination plate', key='shared plate copy without identity test')
         if identity_only:
@@ -594,7 +607,7 @@ def shared_plate_copy(ctx, rule, identity_only=False):
                 shape_test = isinstance(t0, ast.Compare) and any(
                     isinstance(strip_refs(x), ast.Attribute) and strip_refs(x).attr in ('size', 'shape')
                     for x in [t0.left] + list(t0.comparators))
-                if mentions and not shape_test:
+                if mentions and not shape_test and not _through_get(f_.test):
                     gated = True
         # the gate may sit in the same block as the aliasing assignment (it then holds on every path from there on)
         from .common import block_chain
@@ -612,13 +625,20 @@ def shared_plate_copy(ctx, rule, identity_only=False):
                         isinstance(strip_refs(x), ast.Attribute) and strip_refs(x).attr in ('size', 'shape')
                         for x in [t0.left] + list(t0.comparators))
                     from ..flow import exc_name
-                    if mentions and not shape_test and exc_name(later.body[-1]) == 'ValueError':
+                    if mentions and not shape_test and not _through_get(t) and exc_name(later.body[-1]) == 'ValueError':
                         gated = True
         ctx.ob(rule, fi, st.lineno, f"slices {roots} share one plate copy and are both written back", gated or not writes,
                fact=f"{len(writes)} write-backs after `{unparse(st, 60)}`; no gate on overlapping regions" if not gated else 'gated',
                why='for overlapping source and destination regions of one plate the second write-back overwrites '
                    'the first (material is created)', key='shared plate write-back')
     ctx.count('shared_plate_aliases', len(shared))
+
+
+def _through_get(test):
+    """Is the test decided on what `Slicer.get()` handed out?  For a list of wells that is a new array each time: two
+    lists that name the same well share no memory and compare unequal as arrays of copies."""
+    return any(isinstance(x, ast.Call) and isinstance(x.func, ast.Attribute) and x.func.attr == 'get' and not x.args
+               for x in deep_walk(test))
 
 
 def _mentions_all(test, roots):
